@@ -21,7 +21,7 @@ if [ -n "${RACE:-}" ]; then
   done
   wait
   runs=$(cat "$S"/out.* | grep SUMMARY | cut -c9- | jq -s 'map(.runs)|add')
-  races=$(cat "$S"/err.* | awk 'function own(   f,r){ r=""; while ((getline f) > 0) { sub(/^[ \t]+/,"",f); if (f=="") break; if (r=="" && (f ~ /^github.com\/tsuna\/gohbase/ || f ~ /^gosim\//)) r=f } return r } /^WARNING: DATA RACE/{inr=1;n=0;ok=1;next} inr&&/ by goroutine /{f=own(); n++; if (f !~ /^github.com\/tsuna\/gohbase[.\/(]/ || f ~ /verifsimrt/) ok=0; if(n==2){ if(ok) c++; inr=0 } } END{print c+0}')
+  races=$(cat "$S"/err.* | awk 'function own(   f,r,sk){ r=""; sk=0; while ((getline f) > 0) { sub(/^[ \t]+/,"",f); if (f=="") break; if (f ~ /^gosim\/seam\.(ReadBuf|WriteBuf)/) {sk=1; continue} if (sk && f ~ /^gosim\/sim\.\(\*Conn\)\./) continue; if (r=="" && (f ~ /^github.com\/tsuna\/gohbase/ || f ~ /^gosim\//)) r=f } return r } /^WARNING: DATA RACE/{inr=1;n=0;ok=1;next} inr&&/ by goroutine /{f=own(); n++; if (f !~ /^github.com\/tsuna\/gohbase[.\/(]/ || f ~ /verifsimrt/) ok=0; if(n==2){ if(ok) c++; inr=0 } } END{print c+0}')
   echo "{\"runs\":$runs,\"nontrivial\":null,\"violations\":$races}"
   cat "$S"/err.* | grep -A3 -m1 "^WARNING: DATA RACE" | tail -2 | tr -s ' \n' ' ' | sed 's/^/seed ? C09 data-race: /' | cut -c1-200
   exit 0
